@@ -62,11 +62,15 @@ Record quirks := {
      that the resolver resolves the bounds of a counting loop in the table of the loop body *)
   q_tc_by_name : bool;
   (* checkFieldAccess only protects private fields if the Kombination itself is visible *)
-  q_field_unimported : bool
+  q_field_unimported : bool;
+  (* assigneable() (expressions.go) looks the FIELD name of `Speichere e in f von x` up as if it were a variable:
+     a Konstante / function / Kombination that happens to be called f makes the assignment an error.
+     Rejects well-formed programs only (no effect on soundness) *)
+  q_field_name_lookup : bool
 }.
 
-Definition pinned : quirks := {| q_void_eq := true; q_void_ret := true; q_tc_by_name := true; q_field_unimported := true |}.
-Definition patched : quirks := {| q_void_eq := false; q_void_ret := false; q_tc_by_name := false; q_field_unimported := false |}.
+Definition pinned : quirks := {| q_void_eq := true; q_void_ret := true; q_tc_by_name := true; q_field_unimported := true; q_field_name_lookup := true |}.
+Definition patched : quirks := {| q_void_eq := false; q_void_ret := false; q_tc_by_name := false; q_field_unimported := false; q_field_name_lookup := false |}.
 
 Definition vty := option ty.        (* None = ddptypes.VoidType{} *)
 
@@ -386,7 +390,9 @@ Fixpoint ck_stmt (F : fenv) (G : env) (d : nat) (r : retctx) (s : stmt) : list d
       let dr := rs_ident G x ++ rs_expr G i ++ rs_expr G e in
       (dp ++ dr ++ tcs_stmt (q_tc_by_name Q) F G r s, G)
   | SAssignField f x e =>
-      let dp := pt_expr F G e ++ match lookup G x with Some (BVar _) | None => [] | Some _ => [DConstAssign] end in
+      let dp := pt_expr F G e ++
+                (if q_field_name_lookup Q then match lookup G f with Some (BVar _) | None => [] | Some _ => [DConstAssign] end else []) ++
+                match lookup G x with Some (BVar _) | None => [] | Some _ => [DConstAssign] end in
       let dr := rs_ident G x ++ rs_expr G e in
       (dp ++ dr ++ tcs_stmt (q_tc_by_name Q) F G r s, G)
   | SIf c th el =>
@@ -475,7 +481,7 @@ Fixpoint ck_tops (F : fenv) (G : env) (l : list top) : list diag :=
 Definition ck_import_decl (st : list diag * env * fenv) (d : idecl) : list diag * env * fenv :=
   let '(ds, G, F) := st in
   let (G', dd) := insert G (idecl_name d) (idecl_binding d) in
-  (ds ++ dd, G', match dd with [] => idecl_fun d ++ F | _ => F end).
+  (ds ++ dd, G', match dd with [] => rev (idecl_fun M d) ++ F | _ => F end).
 
 Definition ck_import_name (st : list diag * env * fenv) (x : name) : list diag * env * fenv :=
   match find_pub M x with
@@ -496,9 +502,11 @@ Definition check_with (Q : quirks) (p : prog) : list diag :=
   let '(di, G0, F0) := ck_import (p_mod p) (p_imp p) in
   di ++ ck_tops Q (p_mod p) F0 G0 (p_tops p).
 
-(* the frontend as it is in /repo now: the four defects were repaired by ec4b99d (gleich/ungleich), 328cc02 (return),
-   4309fac (VisitIdent uses the resolver's binding; loop bounds resolved outside the body), 581329c (private fields) *)
-Definition current : quirks := patched.
+(* the frontend as it is in /repo now: the four unsoundness defects were repaired by ec4b99d (gleich/ungleich), 328cc02
+   (return), 4309fac (VisitIdent uses the resolver's binding; loop bounds resolved outside the body), 581329c (private
+   fields); the field-name lookup of assigneable() (a false rejection) is still there *)
+Definition current : quirks :=
+  {| q_void_eq := false; q_void_ret := false; q_tc_by_name := false; q_field_unimported := false; q_field_name_lookup := true |}.
 Definition check (p : prog) : list diag := check_with current p.
 (* the frontend of the pinned tree, before the repairs (kept for the regression facts) *)
 Definition check_pinned (p : prog) : list diag := check_with pinned p.
